@@ -9,6 +9,8 @@
 #include <cmath>
 #include <cstdio>
 #include <string>
+#include <string_view>
+#include <vector>
 
 #include "minijson.hpp"
 
@@ -32,6 +34,15 @@ inline std::string tokEncode(const char* p, size_t n) {
   return out;
 }
 inline std::string tokEncode(const std::string& s) { return tokEncode(s.data(), s.size()); }
+// for whole JSON texts: quotes and backslashes stay readable
+inline std::string tokEncodeLoose(const std::string& s) {
+  std::string out;
+  for (unsigned char c : s) {
+    if (c >= 0x20 && c < 0x7f && c != '%') out += char(c);
+    else { char buf[4]; snprintf(buf, sizeof buf, "%%%02X", c); out += buf; }
+  }
+  return out;
+}
 inline std::string tokDecode(const std::string& t) {
   std::string out;
   for (size_t k = 0; k < t.size(); k++) {
@@ -49,6 +60,10 @@ inline std::string shortestDouble(double d) {
   if (std::isnan(d)) return "nan";
   if (std::isinf(d)) return d > 0 ? "inf" : "-inf";
   char buf[40];
+  if (d == std::floor(d) && std::fabs(d) < 1e15) {  // integral: plain digits, no exponent
+    snprintf(buf, sizeof buf, "%.0f", d);
+    return buf[0] == '-' && d == 0 ? "-0" : buf;
+  }
   for (int prec = 1; prec <= 17; prec++) {
     snprintf(buf, sizeof buf, "%.*g", prec, d);
     if (strtod(buf, nullptr) == d) break;
@@ -64,6 +79,7 @@ inline mj::Value node(const char* t, const std::string& s) {
   v.set("z", mj::Value::mkInt(0));
   v.set("n", mj::Value::mkInt(0));
   v.set("b", mj::Value::mkBool(false));
+  v.set("q", mj::Value::mkStr(""));
   return v;
 }
 
@@ -101,6 +117,15 @@ inline mj::Value projectChildren(JsonVariantConst v, mj::Value& out, bool isObje
         setBad(out, "lookup of key '" + kids.a[j].str("s") + "' disagrees with iteration");
       if (obj[JsonString(key.data(), key.size())].isUnbound())
         setBad(out, "JsonObjectConst lookup unbound for an existing key");
+      if (!mj::equal(project(v[key]), got)) setBad(out, "lookup by std::string key disagrees");
+      if (!mj::equal(project(v[std::string_view(key)]), got)) setBad(out, "lookup by string_view key disagrees");
+      if (key.find('\0') == std::string::npos) {
+        if (!mj::equal(project(v[key.c_str()]), got)) setBad(out, "lookup by const char* key disagrees");
+        std::vector<char> buf(key.begin(), key.end());
+        buf.push_back(0);
+        char* kp = buf.data();
+        if (!mj::equal(project(v[kp]), got)) setBad(out, "lookup by char* key disagrees");
+      }
     }
     if (!v["\x01no-such-key\x02"].isUnbound()) setBad(out, "lookup of an absent key is bound");
     if (!v[size_t(0)].isUnbound()) setBad(out, "index lookup on an object is bound");
@@ -145,8 +170,24 @@ inline mj::Value project(JsonVariantConst v, int depth) {
     if (!(v.is<const char*>() && v.is<JsonString>() && v.is<std::string>()))
       setBad(out, "is<string kinds> disagree");
     if (s.c_str() && s.c_str()[s.size()] != 0) setBad(out, "string not NUL-terminated at size()");
-    if (v.as<std::string>() != std::string(s.c_str() ? s.c_str() : "", s.size()))
-      setBad(out, "as<std::string> disagrees with as<JsonString>");
+    std::string bytes(s.c_str() ? s.c_str() : "", s.size());
+    if (v.as<std::string>() != bytes) setBad(out, "as<std::string> disagrees with as<JsonString>");
+    if (v.as<std::string_view>() != std::string_view(bytes)) setBad(out, "as<string_view> disagrees");
+    out.set("q", mj::Value::mkStr(std::to_string(v.as<long long>()) + "/" + shortestDouble(v.as<double>())));
+    if ((double)v.as<float>() != (double)(float)v.as<double>() && v.as<double>() == v.as<double>())
+      setBad(out, "as<float> and as<double> of a string disagree");
+    // comparisons must see the bytes, whatever the storage and whatever the operand kind
+    if (!(v == bytes) || (v != bytes)) setBad(out, "string != its own bytes (std::string operand)");
+    if (!(v == JsonString(bytes.data(), bytes.size()))) setBad(out, "string != its own bytes (JsonString operand)");
+    if (bytes.find('\0') == std::string::npos) {
+      if (!(v == bytes.c_str()) || !(bytes.c_str() == v)) setBad(out, "string != its own bytes (const char* operand)");
+      std::vector<char> buf(bytes.begin(), bytes.end());
+      buf.push_back(0);
+      char* p = buf.data();
+      if (!(v == p)) setBad(out, "string != its own bytes (char* operand)");
+    }
+    if (v == bytes + "x" || v == std::string("\x01")) setBad(out, "string equal to different bytes");
+    if (v.is<int>() || v.is<double>() || v.is<bool>()) setBad(out, "string answers to a numeric kind");
   }
   bool isI = v.is<long long>(), isU = v.is<unsigned long long>();
   if (isI || isU) {
